@@ -71,13 +71,29 @@ theorem ibit_nonneg_lt {v : Int} {k j : Nat} (h0 : 0 ≤ v) (h : v < (2 ^ k : Na
     exact Nat.lt_of_lt_of_le h' (Nat.pow_le_pow_right (by omega) hj)
   | negSucc n => exact absurd h0 (by simp)
 
-/-- wires written by `setInt` on an empty result -/
-theorem testBit_setInt_zero (v : Int) (j : Nat) :
-    (writeBits 0 0 64 ((ival v).testBit)).testBit j = (decide (j < 64) && ibit v j) := by
-  rw [testBit_writeBits]
-  by_cases h : j < 64
+/-- a negative value of a signed 64-bit kind has all bits from 63 upwards set -/
+theorem ibit_neg_ge {v : Int} {j : Nat} (h0 : v < 0) (hlo : -((2 ^ 63 : Nat) : Int) ≤ v) (hj : 63 ≤ j) :
+    ibit v j = true := by
+  cases v with
+  | ofNat n => exact absurd h0 (by simp)
+  | negSucc n =>
+    have hn : n < 2 ^ 63 := by rw [Int.negSucc_eq] at hlo; omega
+    simp only [ibit]
+    rw [Nat.testBit_lt_two_pow (Nat.lt_of_lt_of_le hn (Nat.pow_le_pow_right (by omega) hj))]
+    rfl
+
+/-- the bit `setInt` writes at index `i` is the two's complement bit of the
+value, for every value of an `int8…uint64` kind (`s`: signed kind) -/
+theorem setIntBit_eq (s : Bool) (v : Int) (hhi : v < (2 ^ 64 : Nat)) (hlo : -((2 ^ 63 : Nat) : Int) ≤ v)
+    (hs : v < 0 → s = true) (i : Nat) :
+    setIntBit (ival v) (s && decide (v < 0)) i = ibit v i := by
+  unfold setIntBit
+  by_cases h : i < 64
   · simp [h, ival, testBit_lowBits]
-  · simp [h]
+  · simp only [h, if_false]
+    by_cases hneg : v < 0
+    · simp [hneg, hs hneg, ibit_neg_ge hneg hlo (by omega : 63 ≤ i)]
+    · simp [hneg, ibit_nonneg_lt (by omega : 0 ≤ v) hhi (by omega : 64 ≤ i)]
 
 theorem wire_eq_iff (a b : Int) (n : Nat) :
     wire a n = wire b n ↔ ∀ j, j < n → ibit a j = ibit b j := by
@@ -217,9 +233,9 @@ theorem parse_array_elements
     · intro j hj
       rw [packElems_eq, (packFold_spec _ count w count).2 j hj]
 
-/-- no bit at or above `o + 64` is set (what a 64-bit `setInt` window at an
-offset `≥ o` will overwrite or leave zero) -/
-def Clean (r o : Nat) : Prop := ∀ j, o + 64 ≤ j → r.testBit j = false
+/-- no bit at or above `o` is set: `Set` starts from 0 and every member writes
+only its own wires, so the wires of the members still to come are zero -/
+def Clean (r o : Nat) : Prop := ∀ j, o ≤ j → r.testBit j = false
 
 theorem clean_zero (o : Nat) : Clean 0 o := by intro j _; simp
 
@@ -227,33 +243,41 @@ theorem testBit_lt_256 {x c : Nat} (hx : x < 256) (hc : 8 ≤ c) : x.testBit c =
   apply Nat.testBit_lt_two_pow
   exact Nat.lt_of_lt_of_le hx (Nat.pow_le_pow_right (by omega) hc : 2 ^ 8 ≤ 2 ^ c)
 
+theorem setIntBit_byte (x c : Nat) (hx : x < 256) : setIntBit x false c = x.testBit c := by
+  unfold setIntBit
+  by_cases h : c < 64
+  · simp [h]
+  · simp [h, testBit_lt_256 hx (by omega : 8 ≤ c)]
+
 theorem setBytes_cons (el : Info) (r : Nat) (b : Nat) (bs : List Nat) (ofs : Nat) :
     setBytes el r (b :: bs) ofs =
-      setBytes el (writeBits r ofs 64 ((b % 256).testBit)) bs (ofs + el.bits) := by
+      setBytes el (writeBits r ofs el.bits (setIntBit (b % 256) false)) bs (ofs + el.bits) := by
   simp [setBytes]
 
-theorem setBytes_spec (el : Info) (hw : 8 ≤ el.bits) (bs : List Nat) :
+theorem setBytes_spec (el : Info) (bs : List Nat) :
     ∀ (r ofs : Nat), Clean r ofs →
       (setBytes el r bs ofs).2 = ofs + bs.length * el.bits ∧
       (∀ j, j < ofs → (setBytes el r bs ofs).1.testBit j = r.testBit j) ∧
       (∀ e c, (h : e < bs.length) → c < el.bits →
-        (setBytes el r bs ofs).1.testBit (ofs + e * el.bits + c) =
-          (decide (c < 8) && (bs[e] % 256).testBit c)) ∧
-      (bs ≠ [] → ∀ j, ofs + bs.length * el.bits ≤ j → (setBytes el r bs ofs).1.testBit j = false) := by
+        (setBytes el r bs ofs).1.testBit (ofs + e * el.bits + c) = (bs[e] % 256).testBit c) ∧
+      (∀ j, ofs + bs.length * el.bits ≤ j → (setBytes el r bs ofs).1.testBit j = false) := by
   induction bs with
-  | nil => intro r ofs _; simp [setBytes]
+  | nil =>
+    intro r ofs hc
+    exact ⟨by simp [setBytes], fun _ _ => rfl, fun e c h => absurd h (by simp),
+      fun j hj => by simpa [setBytes] using hc j (by simpa using hj)⟩
   | cons b bs ih =>
     intro r ofs hclean
     rw [setBytes_cons]
     generalize hw' : el.bits = w at *
     have hx : b % 256 < 256 := Nat.mod_lt _ (by omega)
-    have hr1 : ∀ j, (writeBits r ofs 64 ((b % 256).testBit)).testBit j =
-        if ofs ≤ j ∧ j < ofs + 64 then (b % 256).testBit (j - ofs) else r.testBit j :=
-      fun j => testBit_writeBits _ _ _ _ _
-    have hclean1 : Clean (writeBits r ofs 64 ((b % 256).testBit)) (ofs + w) := by
+    have hr1 : ∀ j, (writeBits r ofs w (setIntBit (b % 256) false)).testBit j =
+        if ofs ≤ j ∧ j < ofs + w then (b % 256).testBit (j - ofs) else r.testBit j := by
+      intro j; rw [testBit_writeBits]; simp only [setIntBit_byte _ _ hx]
+    have hclean1 : Clean (writeBits r ofs w (setIntBit (b % 256) false)) (ofs + w) := by
       intro j hj
       rw [hr1]
-      have : ¬ (ofs ≤ j ∧ j < ofs + 64) := by omega
+      have : ¬ (ofs ≤ j ∧ j < ofs + w) := by omega
       simp only [this, if_false]
       exact hclean j (by omega)
     obtain ⟨i1, i2, i3, i4⟩ := ih _ (ofs + w) hclean1
@@ -263,23 +287,15 @@ theorem setBytes_spec (el : Info) (hw : 8 ≤ el.bits) (bs : List Nat) :
     · rw [i1, hlen]; omega
     · intro j hj
       rw [i2 j (by omega), hr1]
-      have : ¬ (ofs ≤ j ∧ j < ofs + 64) := by omega
+      have : ¬ (ofs ≤ j ∧ j < ofs + w) := by omega
       simp [this]
     · intro e c he hc
       cases e with
       | zero =>
         simp only [Nat.zero_mul, Nat.add_zero, List.getElem_cons_zero]
         rw [i2 _ (by omega), hr1]
-        by_cases h64 : c < 64
-        · have : ofs ≤ ofs + c ∧ ofs + c < ofs + 64 := by omega
-          simp only [this, and_self, if_true, Nat.add_sub_cancel_left]
-          by_cases h8 : c < 8
-          · simp [h8]
-          · simp [h8, testBit_lt_256 hx (by omega : 8 ≤ c)]
-        · have : ¬ (ofs ≤ ofs + c ∧ ofs + c < ofs + 64) := by omega
-          have h8 : ¬ c < 8 := by omega
-          simp only [this, if_false, h8, decide_false, Bool.false_and]
-          exact hclean _ (by omega)
+        have : ofs ≤ ofs + c ∧ ofs + c < ofs + w := by omega
+        simp [this]
       | succ e =>
         have he' : e < bs.length := by simpa using he
         have := i3 e c he' hc
@@ -287,21 +303,9 @@ theorem setBytes_spec (el : Info) (hw : 8 ≤ el.bits) (bs : List Nat) :
         rw [← this]
         congr 1
         rw [Nat.add_mul, Nat.one_mul]; omega
-    · intro _ j hj
+    · intro j hj
       rw [hlen] at hj
-      by_cases hbs : bs = []
-      · subst hbs
-        simp only [setBytes, List.foldl_nil]
-        rw [hr1]
-        by_cases h64 : j < ofs + 64
-        · have : ofs ≤ j ∧ j < ofs + 64 := by simp at hj; omega
-          simp only [this, and_self, if_true]
-          simp at hj
-          exact testBit_lt_256 hx (by omega)
-        · have : ¬ (ofs ≤ j ∧ j < ofs + 64) := by omega
-          simp only [this, if_false]
-          exact hclean j (by omega)
-      · exact i4 hbs j (by omega)
+      exact i4 j (by omega)
 
 @[simp] theorem Info.tag_base (t : Tag) (b n : Nat) : (Info.base t b n).tag = t := rfl
 @[simp] theorem Info.tag_elem (t : Tag) (b n : Nat) (e : Info) : (Info.elem t b n e).tag = t := rfl
@@ -319,34 +323,34 @@ def encLeaf (t : Info) (v : GoVal) (i : Nat) : Bool :=
   | .bool b => decide (i = 0) && b
   | .bytes bs =>
     match t with
-    | .elem _ _ _ el =>
-      decide (i % el.bits < 8) && (bs.getD (i / el.bits) 0 % 256).testBit (i % el.bits)
+    | .elem _ _ _ el => (bs.getD (i / el.bits) 0 % 256).testBit (i % el.bits)
     | _ => false
   | _ => false
 
-/-- `(t, v)`: `v` is a value of type `t` in a form `Set` accepts, outside the
-two defects (negative value of a signed width > 64; non-empty array given no
-element). -/
+/-- `(t, v)`: `v` is a value of type `t` in a form `Set` accepts: an
+`int8…uint64` value (`s`: signed kind) for an integer type of ANY width, a
+bool, a `[]byte` no longer than the array (element width ≥ 8) or `nil`. -/
 inductive Fits : Info → GoVal → Prop
   | num (tag : Tag) (bits n : Nat) (s : Bool) (w : Nat) (z : Int) :
-      (tag = .int ∨ tag = .uint) → z < (2 ^ 64 : Nat) → (bits ≤ 64 ∨ 0 ≤ z) →
+      (tag = .int ∨ tag = .uint) → z < (2 ^ 64 : Nat) → -((2 ^ 63 : Nat) : Int) ≤ z → (z < 0 → s = true) →
       Fits (.base tag bits n) (.num s w z)
   | bool (n : Nat) (b : Bool) : Fits (.base .bool 1 n) (.bool b)
   | arrayBytes (count : Nat) (el : Info) (bs : List Nat) :
-      (el.tag = .int ∨ el.tag = .uint) → 8 ≤ el.bits → bs.length ≤ count → (bs ≠ [] ∨ count = 0) →
+      (el.tag = .int ∨ el.tag = .uint) → 8 ≤ el.bits → bs.length ≤ count →
       Fits (.elem .array (count * el.bits) count el) (.bytes bs)
-  | arrayNil (el : Info) : Fits (.elem .array 0 0 el) .nil
+  | arrayNil (count : Nat) (el : Info) : (el.tag = .int ∨ el.tag = .uint) →
+      Fits (.elem .array (count * el.bits) count el) .nil
   | sliceBytes (el : Info) (bs : List Nat) :
       (el.tag = .int ∨ el.tag = .uint) → 8 ≤ el.bits →
       Fits (.elem .slice (bs.length * el.bits) bs.length el) (.bytes bs)
   | sliceNil (el : Info) : (el.tag = .int ∨ el.tag = .uint) → Fits (.elem .slice 0 0 el) .nil
 
 theorem encLeaf_bytes_region (el : Info) (hw : 8 ≤ el.bits) (bs : List Nat) (count r o : Nat) (hc : Clean r o)
-    (hk : bs.length ≤ count) (tag : Tag) (bits : Nat) :
-    ∀ i, i < count * el.bits → (bs ≠ [] ∨ count = 0) →
+    (tag : Tag) (bits : Nat) :
+    ∀ i, i < count * el.bits →
       (setBytes el r bs o).1.testBit (o + i) = encLeaf (.elem tag bits count el) (.bytes bs) i := by
-  intro i hi hne
-  obtain ⟨_, _, i3, i4⟩ := setBytes_spec el hw bs r o hc
+  intro i hi
+  obtain ⟨_, _, i3, i4⟩ := setBytes_spec el bs r o hc
   generalize hwd : el.bits = w at *
   have hw0 : 0 < w := by omega
   have hdm := Nat.div_add_mod i w
@@ -356,12 +360,8 @@ theorem encLeaf_bytes_region (el : Info) (hw : 8 ≤ el.bits) (bs : List Nat) (c
   by_cases he : i / w < bs.length
   · rw [hpos, i3 (i / w) (i % w) he hml]
     simp [List.getD, he]
-  · have hne' : bs ≠ [] := by
-      rcases hne with h | h
-      · exact h
-      · subst h; simp at hi
-    have hge : bs.length * w ≤ (i / w) * w := Nat.mul_le_mul_right w (by omega)
-    rw [i4 hne' (o + i) (by rw [Nat.mul_comm] at hdm; omega)]
+  · have hge : bs.length * w ≤ (i / w) * w := Nat.mul_le_mul_right w (by omega)
+    rw [i4 (o + i) (by rw [Nat.mul_comm] at hdm; omega)]
     have : bs[i / w]?.getD 0 = 0 := by rw [List.getElem?_eq_none (by omega)]; rfl
     simp [this]
 
@@ -371,85 +371,78 @@ theorem setLeaf_spec (t : Info) (v : GoVal) (hf : Fits t v) (r o : Nat) (hc : Cl
       Clean r' (o + t.bits) ∧
       (∀ i, i < t.bits → r'.testBit (o + i) = encLeaf t v i) := by
   cases hf with
-  | num tag bits n s w z htag hz hdom =>
-    refine ⟨writeBits r o 64 ((ival z).testBit), ?_, ?_, ?_, ?_⟩
+  | num tag bits n s w z htag hz hlo hs =>
+    refine ⟨writeBits r o bits (setIntBit (ival z) (s && decide (z < 0))), ?_, ?_, ?_, ?_⟩
     · rcases htag with h | h <;> subst h <;> simp [setLeaf, setInt]
     · intro j hj; rw [testBit_writeBits]
-      have : ¬ (o ≤ j ∧ j < o + 64) := by omega
+      have : ¬ (o ≤ j ∧ j < o + bits) := by omega
       simp [this]
     · intro j hj; rw [testBit_writeBits]
-      simp only [Info.bits_base, Info.bits_elem] at hj
-      have : ¬ (o ≤ j ∧ j < o + 64) := by omega
+      simp only [Info.bits_base] at hj
+      have : ¬ (o ≤ j ∧ j < o + bits) := by omega
       simp only [this, if_false]; exact hc j (by omega)
     · intro i hi
-      simp only [Info.bits_base, Info.bits_elem] at hi
+      simp only [Info.bits_base] at hi
       rw [testBit_writeBits]
-      simp only [encLeaf]
-      by_cases h64 : i < 64
-      · have : o ≤ o + i ∧ o + i < o + 64 := by omega
-        simp [this, ival, testBit_lowBits, h64]
-      · have : ¬ (o ≤ o + i ∧ o + i < o + 64) := by omega
-        simp only [this, if_false]
-        rw [hc (o + i) (by omega)]
-        rcases hdom with hd | hd
-        · omega
-        · exact (ibit_nonneg_lt hd hz (by omega)).symm
+      have : o ≤ o + i ∧ o + i < o + bits := by omega
+      simp only [this, and_self, if_true, Nat.add_sub_cancel_left, encLeaf]
+      exact setIntBit_eq s z hz hlo hs i
   | bool n b =>
     refine ⟨setBit r o b, ?_, ?_, ?_, ?_⟩
     · simp [setLeaf, setBool]
     · intro j hj; rw [testBit_setBit]; have : j ≠ o := by omega
       simp [this]
     · intro j hj; rw [testBit_setBit]
-      simp only [Info.bits_base, Info.bits_elem] at hj
+      simp only [Info.bits_base] at hj
       have : j ≠ o := by omega
       simp only [this, if_false]; exact hc j (by omega)
     · intro i hi
-      simp only [Info.bits_base, Info.bits_elem] at hi
+      simp only [Info.bits_base] at hi
       have : i = 0 := by omega
       subst this
       simp [testBit_setBit, encLeaf]
-  | arrayBytes count el bs htag hw hk hne =>
+  | arrayBytes count el bs htag hw hk =>
     by_cases h0 : count = 0
     · subst h0
       refine ⟨r, ?_, fun _ _ => rfl, ?_, ?_⟩
-      · simp [setLeaf, Info.tag, Info.arraySize, Info.bits]
+      · simp [setLeaf]
       · simpa using hc
       · intro i hi; simp at hi
-    · have hne' : bs ≠ [] := by rcases hne with h | h; exact h; exact absurd h h0
-      obtain ⟨i1, i2, i3, i4⟩ := setBytes_spec el hw bs r o hc
+    · obtain ⟨i1, i2, i3, i4⟩ := setBytes_spec el bs r o hc
       refine ⟨(setBytes el r bs o).1, ?_, i2, ?_, ?_⟩
       · have h8 : ¬ el.bits < 8 := by omega
         have hk' : ¬ bs.length > count := by omega
         rcases htag with h | h <;>
           simp [setLeaf, h0, setArray, h, h8, hk']
       · intro j hj
-        simp only [Info.bits_base, Info.bits_elem] at hj
+        simp only [Info.bits_elem] at hj
         have : bs.length * el.bits ≤ count * el.bits := Nat.mul_le_mul_right _ hk
-        exact i4 hne' j (by omega)
+        exact i4 j (by omega)
       · intro i hi
-        simp only [Info.bits_base, Info.bits_elem] at hi
-        exact encLeaf_bytes_region el hw bs count r o hc hk _ _ i hi hne
-  | arrayNil el =>
+        simp only [Info.bits_elem] at hi
+        exact encLeaf_bytes_region el hw bs count r o hc _ _ i hi
+  | arrayNil count el htag =>
     refine ⟨r, ?_, fun _ _ => rfl, ?_, ?_⟩
-    · simp [setLeaf, Info.tag, Info.arraySize, Info.bits]
-    · simpa using hc
-    · intro i hi; simp at hi
+    · by_cases h0 : count = 0
+      · subst h0; simp [setLeaf]
+      · rcases htag with h | h <;> simp [setLeaf, h0, setArray, h]
+    · intro j hj; exact hc j (by simp only [Info.bits_elem] at hj; omega)
+    · intro i hi
+      simp only [Info.bits_elem] at hi
+      simp only [encLeaf]
+      exact hc (o + i) (by omega)
   | sliceBytes el bs htag hw =>
-    obtain ⟨i1, i2, i3, i4⟩ := setBytes_spec el hw bs r o hc
+    obtain ⟨i1, i2, i3, i4⟩ := setBytes_spec el bs r o hc
     refine ⟨(setBytes el r bs o).1, ?_, i2, ?_, ?_⟩
     · have h8 : ¬ el.bits < 8 := by omega
       rcases htag with h | h <;>
         simp [setLeaf, setArray, h, h8, i1]
     · intro j hj
-      simp only [Info.bits_base, Info.bits_elem] at hj
-      by_cases hb : bs = []
-      · subst hb; simp [setBytes] at *; exact hc j (by omega)
-      · exact i4 hb j (by omega)
+      simp only [Info.bits_elem] at hj
+      exact i4 j (by omega)
     · intro i hi
-      simp only [Info.bits_base, Info.bits_elem] at hi
-      by_cases hb : bs = []
-      · subst hb; simp at hi
-      · exact encLeaf_bytes_region el hw bs bs.length r o hc (Nat.le_refl _) _ _ i hi (Or.inl hb)
+      simp only [Info.bits_elem] at hi
+      exact encLeaf_bytes_region el hw bs bs.length r o hc _ _ i hi
   | sliceNil el htag =>
     refine ⟨r, ?_, fun _ _ => rfl, ?_, ?_⟩
     · rcases htag with h | h <;> simp [setLeaf, setArray, h]
@@ -587,6 +580,10 @@ def bitLenFromOld (v : Nat) : Nat → Nat
 
 def bitLenOld (v : Nat) : Nat := bitLenFromOld v 63
 
+/-- `setInt` before commit 95af76e: a fixed 64-bit window at `ofs`, whatever
+the width of the type -/
+def setIntOld (r : Nat) (v : Int) (ofs : Nat) : Nat := writeBits r ofs 64 ((ival v).testBit)
+
 /-- the `TInt` branch of `mpc.Result` before commit 66e4e03
 (`result.Sub(tmp, result); result.Neg(result)` in place): returned value and
 content of the caller's `*big.Int` afterwards -/
@@ -710,7 +707,7 @@ theorem testBit_group (z : Int) (i w b : Nat) :
 /-- Array decoding: every element is decoded from its own `w`-bit group by the
 element decoder; the cell is not modified. -/
 theorem result_array (tag : Tag) (htag : tag = .array ∨ tag = .slice) (bits count : Nat) (el : Info)
-    (name : String) (hname : elemTypeName el = some name) (z : Int) (vs : Nat → RVal)
+    (name : String) (hname : elemName el (result el 0) = .ok name) (z : Int) (vs : Nat → RVal)
     (h : ∀ i, i < count → ∃ c, result el ((lowBits (rsh z (i * el.bits)) el.bits : Nat) : Int) = .ok (vs i, c)) :
     result (.elem tag bits count el) z = .ok (.slice name ((List.range count).map vs), z) := by
   have hm : (List.range count).mapM (fun i =>
@@ -746,13 +743,14 @@ theorem result_cell (t : Info) (z : Int) (rv : RVal) (c : Int) (h : result t z =
         · simp at h; exact h.2.symm
         · simp at h
 
-theorem nested_panics (tag : Tag) (htag : tag = .array ∨ tag = .slice) (bits count : Nat)
-    (el : Info) (hel : el.tag = .array ∨ el.tag = .slice ∨ el.tag = .struct) (z : Int) :
-    result (.elem tag bits count el) z = .error .panic := by
-  have : elemTypeName el = none := by
-    rcases hel with h | h | h <;> simp [elemTypeName, h]
-  rcases htag with ht | ht <;> subst ht <;>
-    (rw [result.eq_def]; simp only [Info.tag_elem, this])
+theorem elemName_explicit (el : Info) (n : String) (x : Except Err (RVal × Int))
+    (h : elemTypeName el = some n) : elemName el x = .ok n := by
+  simp [elemName, h]
+
+theorem elemName_default (el : Info) (v : RVal) (c : Int)
+    (h : elemTypeName el = none) (hz : result el 0 = .ok (v, c)) :
+    elemName el (result el 0) = .ok (rvalTypeName v) := by
+  simp [elemName, h, hz]
 
 theorem split_spec (ns : List Nat) : ∀ (z : Int) (bit k : Nat) (hk : k < ns.length) (i : Nat),
     ((split ns z bit).getD k 0).testBit i =
